@@ -220,7 +220,7 @@ def prism_case(draw):
         scan = {"kind": "custom", "positions": [[round(0.3 * cell[0], 3), round(0.6 * cell[1], 3)]]}
     return {
         "potential": pot,
-        "gpts": [draw(st.integers(10, 18)), draw(st.integers(10, 18))],
+        "gpts": pl.sound_gpts([draw(st.integers(10, 18)), draw(st.integers(10, 18))], pot),
         "energy": draw(st.sampled_from([80e3, 100e3, 200e3])),
         "semiangle": round(draw(gen.floats(0.3, 0.7)), 3),
         "scan": scan,
